@@ -17,7 +17,6 @@ ASSUMPTIONS = ["member names restricted to printable ASCII for model corresponde
                "wf_module => rustc accepts is validated on batches (thorough tier), not proved; edition 2024, serde 1 with derive",
                "non-ASCII identifiers (XID) are treated as illegal by the model's legal_ident (conservative)"]
 
-HEADER = "//! Generated `JsonShape` file.\nuse serde;\n\n"
 
 def classify(s, opt_array_ok):
     """label of a good_names = false shape, for the KNOWN-FINDING id (the CLASS is decided by good_names)"""
@@ -133,6 +132,7 @@ def rustc_batches(ctx, ascii_pool, ts, mi, idx, pred):
     sc = ctx.corr_scopes.setdefault("rustc verdict = wf_module (as written) / wf_items (header neutralised)",
                                     {"cases": 0, "disagreements": 0})
     codes = {}
+    HEADER = genlib.real_header(ctx)          # what compile_json really writes today
     for variant, header in (("A", HEADER), ("B", HEADER.replace("//!", "//"))):
         files = [header + genlib.text_of(mi[i]) + "\n" for i in chosen]
         errs = genlib.rustc_each(files)
